@@ -36,7 +36,7 @@ def main():
     for d in sorted(os.listdir(os.path.join(VERIF, "seeded"))):
         if d.startswith("_incoming_"):
             pid = d.replace("_incoming_", "")
-            for x in "abcdefghijkl":
+            for x in "abcdefghijklmnopqr":
                 todo.append((pid, "%s-%s" % (pid, x), os.path.join(VERIF, "seeded", d, x)))
         elif redo and re.match(r"^C\d\d-[a-z]$", d):
             todo.append((d[:3], d, os.path.join(VERIF, "seeded", d)))
